@@ -208,9 +208,12 @@ pub fn apply_plain(root: &Path, vars_dir: &Path, op: &FsOp, clock: &mut u64) -> 
             if std::fs::write(&p, content.as_bytes()).is_err() {
                 return vec![];
             }
-            tick();
-            // logical mtimes start at tick 1; an "older revision" may predate every tick
-            let ts = libc::timespec { tv_sec: MTIME_BASE + old - 1000 - (*clock as i64 % 7), tv_nsec: 0 };
+            let now = tick();
+            // older than every mtime in use (logical mtimes are MTIME_BASE + tick, tick >= 1) and
+            // never used twice: two older revisions with one and the same mtime would be
+            // indistinguishable by the mtime-or-content rule
+            let _ = old;
+            let ts = libc::timespec { tv_sec: MTIME_BASE - 1000 - now as i64, tv_nsec: 0 };
             set_mtime_raw(&p, ts);
             vec![(K_MODIFY_DATA, vec![p.clone()]), (K_CLOSE_WRITE, vec![p.clone()]), (K_METADATA, vec![p])]
         }
